@@ -42,6 +42,7 @@ def check(ctx):
     v1(ctx, P, cg)
     v2(ctx, P, cg)
     short_ids(ctx, P)
+    refused_send_has_no_effect(ctx, P)
 
 
 # ------------------------------------------------------------------------------------------------
@@ -291,3 +292,42 @@ def short_ids(ctx, P):
     lg = [e for e in exits(gt, P, gsub) if e.kind == "ret" and is_expr(e.value) and e.line not in {h.line for h in hits} and contains(["local", ANY], e.value)]
     okg = len(lg) == 1 and any(re.fullmatch(r"\w+\.size\(\) < %d" % mts, F.strip_stale(k)) for k in F.atoms(lg[0].formula))
     ctx.ob("short-ids/long-decoding", "SYMMETRY", "the long encoding is accepted only with at least MESSAGE_TYPE_SIZE (12) type bytes present", okg, gt.where)
+
+
+# ------------------------------------------------------------------------------------------------
+def refused_send_has_no_effect(ctx, P):
+    """SetMessageToSend may be called while the previous message is still being sent and then answers false: on that path it
+    must not have touched the send state (header/payload buffers, counters, cipher), or the bytes still to go out change under the
+    sender (the receiver then sees a message that was never sent)."""
+    MUT = ("clear", "resize", "push_back", "emplace_back", "assign", "insert", "erase", "swap", "pop_back", "Encrypt", "reserve", "shrink_to_fit")
+    for q in ("V1Transport::SetMessageToSend", "V2Transport::SetMessageToSend"):
+        f = ctx.used(P.fn(q))
+        cls = q.split("::")[0]
+
+        def member(e, cls=cls):
+            return is_expr(e) and any(x[0] == "." and len(x) == 3 and x[1] == ["this"] and isinstance(x[2], str) and x[2].startswith(cls + "::m_") and
+                                      not x[2].endswith("mutex") for x in subexprs(e))
+
+        def writes(e, member=member):
+            t = e[0]
+            if t in ("b",) and e[1] in ASSIGN_OPS and member(e[2]):
+                return True
+            if t == "opcall" and e[1] in ASSIGN_OPS and len(e) > 3 and member(e[3]):
+                return True
+            if t in ("mcall", "vcall") and str(e[1]).rsplit("::", 1)[-1] in MUT and member(e[2]):
+                return True
+            if t == "ctor" and str(e[1]).endswith("VectorWriter") and len(e) > 2 and member(e[2]):
+                return True
+            if t == "u" and e[1] in ("++", "--", "post++", "post--") and member(e[2]):
+                return True
+            return False
+
+        mf = MayFlow(f, P, gens=[("touched", writes)])
+        mf.run()
+        fe = [(state, st) for state, st in mf.exits if st.get("k") == "ret" and is_expr(st.get("v")) and match(["bool", False], st["v"])]
+        nw = len(sites(f, writes, P))
+        ctx.floor("%s send-state writes" % q, nw, 2)
+        ctx.floor("%s refusing exits" % q, len(fe), 1)
+        bad = sorted(st.get("l") for state, st in fe if "touched" in state)
+        ctx.ob("%s/refused-send-no-effect" % q, "ORDER", "%s answers false (busy) only on paths on which it has not yet modified any send-state member" % q, not bad,
+               f.where, {"refusing_exits_after_a_write": bad} if bad else None)
